@@ -578,6 +578,32 @@ where
     }
 }
 
+/// multiplication of EVERY a by a constant power of two (-1)^NEG 2^K (raw bits), any width incl. 128 bits (the schoolbook
+/// product folds for such a factor): all five forms equal floor(a * b / 2^f)
+pub fn mul_pow2<L, const K: u32, const NEG: bool>()
+where
+    L: Fixed + core::ops::Mul<Output = L>,
+    L::Bits: Raw,
+{
+    let a = <L::Bits as Raw>::any();
+    let bmag = 1u128 << K;
+    let b = <L::Bits as Raw>::trunc(if NEG { bmag.wrapping_neg() } else { bmag });
+    let x = L::from_bits(a);
+    let y = L::from_bits(b);
+    let (an, aa) = a.neg_abs();
+    let p = U256::shl_u128(aa, K);
+    let want = settle::<L::Bits>(floor_shr256(an != NEG, p, L::frac_nbits()));
+    kani::cover!(want.overflow || aa != 0, "W:product overflows or is non-zero");
+    kani::cover!(!want.overflow && want.wrapped != <L::Bits as Raw>::trunc(0), "non-zero product fits");
+    four_forms!(L, want, x.overflowing_mul(y), x.wrapping_mul(y), x.checked_mul(y), x.saturating_mul(y),
+        "mul by +-2^K: checked/saturating/wrapping/overflowing agree with floor(a*b/2^f) (flag, value mod 2^W, None, side)");
+    four_forms!(L, want, y.overflowing_mul(x), y.wrapping_mul(x), y.checked_mul(x), y.saturating_mul(x),
+        "mul by +-2^K (operands swapped): the four forms agree with floor(a*b/2^f)");
+    if !want.overflow {
+        assert!((x * y).to_bits() == want.wrapped, "a * b = floor(a*b/2^f) when representable");
+    }
+}
+
 /// 128-bit division on operand families: overflowing_div by multiply-back in 256 bits
 pub fn div128<L, const FA: u8, const FB: u8>()
 where
